@@ -270,6 +270,19 @@ def _retry_idempotence(col, rule="C18.R4"):
                 "a run() that carries state across runs does not perform several fallible writes before committing that state "
                 "(a fault after the first write followed by a repeat applies the first increment twice)",
                 f"state attributes {sorted(state)}; container writes in a loop: {bool(in_loop)}; state committed after them: {late}")
+        # ... and never the other way round: state committed *before* a write that may fail makes the repeat a no-op (the increment is lost)
+        def _commit_targets(st):
+            ts = st.targets if isinstance(st, ast.Assign) else [st.target]
+            out = []
+            for t in ts:
+                out += list(t.elts) if isinstance(t, (ast.Tuple, ast.List)) else [t]
+            return out
+        commits2 = [n.id for n in cfg.nodes.values() if n.kind == "stmt" and isinstance(n.ast, (ast.Assign, ast.AugAssign))
+                    and any(A.self_attr(t) in state for t in _commit_targets(n.ast))]
+        early = [(c, w) for c in commits2 for w in writes if cfg.path_avoiding(c, w, [])]
+        col.add(rule, f"{cls}.run#state-not-committed-before-the-writes", not early, cx.loc(early[0][0]) if early else cx.loc(cx.fn),
+                "the state a run() carries over (e.g. the last seen source value) is recorded only after the writes it accounts for succeeded",
+                f"state attributes {sorted(state)}; committed at {cx.loc(early[0][0])} before the write at {cx.loc(early[0][1])}" if early else "")
 
 
 def check(col: Collector):
